@@ -93,6 +93,7 @@ func spRef(fn string, xs []float64) ([]float64, bool) {
 	case fn == "pow" && len(xs) == 2:
 		return []float64{math.Pow(xs[0], xs[1])}, true
 	case fn == "atan2" && len(xs) == 2:
+		// Go's function; mathAtan2's sign correction on top of it is in the Lean Model (MathModel.mathAtan2)
 		return []float64{math.Atan2(xs[0], xs[1])}, true
 	case fn == "ldexp" && len(xs) == 2:
 		return []float64{math.Ldexp(xs[0], int(lua.LNumber(xs[1])))}, true // L.CheckInt(2) is int(LNumber)
@@ -233,14 +234,6 @@ func genC15Special(run *Run, r *Rng, thorough bool) []Case {
 				return
 			}
 		}
-		if fn == "atan2" && len(args) == 3 { // the class of C15-atan2-underflow-sign: y < 0, x < 0, y/x underflows to zero
-			y, _ := numArg(spDecArg(args[1]))
-			x, _ := numArg(spDecArg(args[2]))
-			if y < 0 && x < 0 && y/x == 0 {
-				single = append(single, op)
-				return
-			}
-		}
 		bulk = append(bulk, op)
 	}
 	xs := spOperands(thorough)
@@ -298,6 +291,13 @@ func genC15Special(run *Run, r *Rng, thorough bool) []Case {
 			}
 		}
 	}
+	// math.ldexp's exponent is read with CheckInt: a numeral there is converted as well
+	for _, s := range []string{"-0", "0", "-6", "3", "-1", " 2 ", "1e1", "1074", "-1074"} {
+		for _, x := range []float64{0, math.Copysign(0, -1), 1, -1, 0.5, 5e-324, math.MaxFloat64, math.Inf(-1), spNaN} {
+			add("ldexp", spArg(x), encStr(s))
+		}
+	}
+	run.Distinct["sp ldexp exponent-as-numeral"] = true
 	// (e) seeded: the grid / random values of the math stream through the same bit-exact comparison (exactly defined
 	// functions are recomputed in Lean on the exact value, the others are held to Go's function bit for bit)
 	n := 2000
